@@ -415,8 +415,9 @@ Definition ordered_acquisition (l : list ev) : bool := well_locked (erase 64 l).
 
 (* ---- helper bodies (SetTTL, DelTTL): run with the key's write lock assumed held ---- *)
 Definition helper_ok (param : string) (l : list ev) : bool :=
-  let s := mkA [(W, [TKey (KVar param)])] [] false false in
-  match interp (fuel_of l) None s (l ++ [EUnlock W (KVar param); EReturn]) with
+  let k := KVar param in
+  let s := mkA [(W, [TKey k])] [[EUnlock W k]] false false in   (* the caller's lock and its release *)
+  match interp (fuel_of l) None s (l ++ [EReturn]) with
   | (Exits, _) => true
   | _ => false
   end.
